@@ -8,6 +8,11 @@
 #include <stdlib.h>
 #include <string.h>
 #include "log_stub.h"
+/* isspace: C-locale model instead of glibc's table macro */
+#include <ctype.h>
+#undef isspace
+static int verif_isspace(int c) { return c == ' ' || (c >= '\t' && c <= '\r'); }
+#define isspace(c) verif_isspace(c)
 #include "websocket.c"
 #include "compression.c"
 #include "linux/jet_endian.c"
@@ -393,7 +398,6 @@ void h_ws_version(void)
 #ifndef EXT_MAX
 #define EXT_MAX 48
 #endif
-int isspace(int c) { return c == ' ' || (c >= '\t' && c <= '\r'); }
 void alloc_compression(struct websocket *ws);
 void h_ext_offer(void)
 {
